@@ -112,63 +112,3 @@ spec fn has_error(t: VmGreenThread, k: ErrK) -> bool {
     t.error is Some && errk(t.error->0.kind) == k
 }
 
-// ---- contract-only stand-ins for real helpers ---------------------------------
-impl Value {
-    // real: vm.rs Value::get_int (check_type + `self.0 as AbraInt`); contract proved by Kani U4.enc.get_int
-    #[verifier::external_body]
-    pub fn get_int(&self, _vm: &VmGreenThread) -> (r: AbraInt)
-        requires tag_of(*self) == ValueTag::Int,
-        ensures r == int_of(*self),
-    { unimplemented!() }
-
-    #[verifier::external_body]
-    pub fn get_bool(&self, _vm: &VmGreenThread) -> (r: bool)
-        requires tag_of(*self) == ValueTag::Bool,
-        ensures r == bool_of(*self),
-    { unimplemented!() }
-}
-
-impl VmGreenThread {
-    // real: vm.rs VmGreenThread::load_offset_or_top; contract proved by Kani U4.stack.load_offset_or_top
-    #[verifier::external_body]
-    pub fn load_offset_or_top(&mut self, arg: u16) -> (r: Value)
-        requires reg_ok(old(self).value_stack@, old(self).stack_base as int, arg),
-        ensures
-            r == reg_val(old(self).value_stack@, old(self).stack_base as int, arg),
-            final(self).value_stack@ == reg_after_load(old(self).value_stack@, arg),
-            frame_stack(*old(self), *final(self)),
-    { unimplemented!() }
-
-    // real: vm.rs VmGreenThread::store_offset_or_top with val: AbraInt (R3 typed store)
-    #[verifier::external_body]
-    pub fn store_offset_or_top_int(&mut self, arg: u16, val: AbraInt)
-        requires reg_store_ok(old(self).value_stack@, old(self).stack_base as int, arg),
-        ensures
-            final(self).value_stack@ == reg_after_store(old(self).value_stack@, old(self).stack_base as int, arg, val_int(val)),
-            tag_of(val_int(val)) == ValueTag::Int, int_of(val_int(val)) == val,  // = axiom_val_int
-            frame_stack(*old(self), *final(self)),
-    { unimplemented!() }
-
-    #[verifier::external_body]
-    pub fn store_offset_or_top_bool(&mut self, arg: u16, val: bool)
-        requires reg_store_ok(old(self).value_stack@, old(self).stack_base as int, arg),
-        ensures
-            final(self).value_stack@ == reg_after_store(old(self).value_stack@, old(self).stack_base as int, arg, val_bool(val)),
-            tag_of(val_bool(val)) == ValueTag::Bool, bool_of(val_bool(val)) == val,  // = axiom_val_bool
-            frame_stack(*old(self), *final(self)),
-    { unimplemented!() }
-
-    #[verifier::external_body]
-    pub fn store_offset_or_top_val(&mut self, arg: u16, val: Value)
-        requires reg_store_ok(old(self).value_stack@, old(self).stack_base as int, arg),
-        ensures
-            final(self).value_stack@ == reg_after_store(old(self).value_stack@, old(self).stack_base as int, arg, val),
-            frame_stack(*old(self), *final(self)),
-    { unimplemented!() }
-
-    // real: vm.rs VmGreenThread::make_error followed by `.into()` / Box::new (R2)
-    #[verifier::external_body]
-    pub fn make_error_boxed(&self, kind: VmErrorKind) -> (r: Box<VmError>)
-        ensures r.kind == kind,
-    { unimplemented!() }
-}
